@@ -220,3 +220,46 @@ impl StreamChunks for ScriptSource {
     }
   }
 }
+
+// --------------------------------------------------------- yielding child
+
+/// A user-defined child that hands control to the scheduler in the middle of
+/// the enclosing source's stream call (raw text, no mappings).
+#[derive(Clone, Debug, PartialEq, Eq, Hash)]
+pub struct YieldSource {
+  pub text: String,
+}
+
+impl Source for YieldSource {
+  fn source(&self) -> Cow<str> {
+    Cow::Borrowed(&self.text)
+  }
+  fn rope(&self) -> Rope<'_> {
+    Rope::from(&self.text)
+  }
+  fn buffer(&self) -> Cow<[u8]> {
+    Cow::Borrowed(self.text.as_bytes())
+  }
+  fn size(&self) -> usize {
+    self.text.len()
+  }
+  fn map(&self, _: &MapOptions) -> Option<SourceMap> {
+    None
+  }
+  fn to_writer(&self, w: &mut dyn std::io::Write) -> std::io::Result<()> {
+    w.write_all(self.text.as_bytes())
+  }
+}
+
+impl StreamChunks for YieldSource {
+  fn stream_chunks<'a>(
+    &'a self,
+    options: &MapOptions,
+    on_chunk: OnChunk<'_, 'a>,
+    on_source: OnSource<'_, 'a>,
+    on_name: OnName<'_, 'a>,
+  ) -> GeneratedInfo {
+    crate::sched::on_point("user.yield", 0, 0);
+    stream_chunks_default(self.text.as_str(), None, options, on_chunk, on_source, on_name)
+  }
+}
